@@ -39,7 +39,11 @@ func c06Term(r *rand.Rand) string {
 	case 7:
 		return []string{"d", "2d", "d优势", "3dk2"}[r.Intn(4)]
 	default:
-		return []string{"[1,2,3,4,5].rand()", "[1,2,3,4,5,6].shuffle()[0]", "[1,2,3,4,5].randSize(2).sum()", "[2d6, d20].kh()"}[r.Intn(4)]
+		// (the last four walk a dict: what the walk yields, and how many dice are rolled because of it, must not depend on anything
+		// but the dict - the iteration order of a Go map is different in every run)
+		return []string{"[1,2,3,4,5].rand()", "[1,2,3,4,5,6].shuffle()[0]", "[1,2,3,4,5].randSize(2).sum()", "[2d6, d20].kh()",
+			"{'ka':1,'kb':2,'kc':3,'kd':4,'ke':5}.values().rand()", "({'ka':2,'kb':3,'kc':4,'kd':5,'ke':6}.values().pop())d6", "{'ka':d6,'kb':d6,'kc':d6,'kd':d6}.values().pop()",
+			"{'ka':1,'kb':2,'kc':3,'kd':4,'ke':5}.items().shuffle().pop().pop()"}[r.Intn(8)]
 	}
 }
 
